@@ -95,7 +95,11 @@ def c1_light(m):
 def triples(m, level):
     """[(c1, c2, a, b)]; c2 in {ones, reversed c1} (the reversed vector only when it differs from c1)."""
     out = []
-    for c1 in c1_full(m) if level == "full" else c1_light(m):
+    if level == "mild":  # mild, non-uniform scalings only (ladders L2 = {0.5, 2} and L1 = {0.1, 1, 10})
+        c1s = [c for c in itertools.product(A.L2, repeat=m) if len(set(c)) > 1] + [c for c in itertools.product(A.L1, repeat=m) if len(set(c)) > 1]
+    else:
+        c1s = c1_full(m) if level == "full" else c1_light(m)
+    for c1 in c1s:
         c2s = [tuple([1.0] * m)]
         if c1[::-1] != c1:
             c2s.append(c1[::-1])
@@ -133,7 +137,17 @@ def mats(src, m, n, seed):
     """Named, deterministic matrix lists (zero rows excluded: c -> diag(c) J ignores them anyway and ConFIG's unit rows need them non-zero)."""
     k = (src, m, n, seed if src.startswith(("dense", "generic")) else 0)
     if k not in _LISTS:
-        if src.startswith("dense"):
+        if src.startswith("illcond"):
+            # full row rank, condition number 50-200, mild entries (added after a seeded change - the Gramian rounded to float32 before
+            # the QP - was missed: its effect needs cond >= 1e2 and mild scalings)
+            L = []
+            for d in (0.02, 0.05):
+                L.append(np.array([[1.0, 0.0], [1.0, d]]))
+                L.append(np.array([[1.0, 1.0, 0.0], [1.0, 1.0 + d, 0.0]]))
+                if m == 3:
+                    L[-2:] = [np.array([[1.0, 0.0, 0.0], [1.0, d, 0.0], [0.0, 0.5, 1.0]]), np.array([[1.0, 1.0, 0.0], [1.0, 1.0 + d, 0.0], [-1.0, 0.0, 1.0]])]
+            L = [M for M in L if M.shape == (m, n)]
+        elif src.startswith("dense"):
             L = A.dense(seed, m, n, 8)
         elif src.startswith("generic"):
             L = generic(seed, m, n, 8)
@@ -193,6 +207,8 @@ def gen_cases(tier, seed):
         add("upgrad", "canon-frconf", 3, 3, 2, "light", first=40)
         add("upgrad", "generic-fullrank", 3, 4, 2, "light", first=4)
     add("upgrad", "dense-fullrank", 2, 3, 2, "light")
+    for (m_, n_) in ((2, 2), (2, 3), (3, 3)):
+        add("upgrad", "illcond", m_, n_, 1, "mild")
     return cases
 
 
@@ -288,12 +304,13 @@ def _config_float32(res, J, key, w):
     c2 = c1[::-1]
     a, b = 0.5, 2.0
     c0 = tuple(a * x + b * y for x, y in zip(c1, c2))
-    for g in (1.0, 1e6):
+    for g, dtn in ((1.0, "float32"), (1e6, "float32"), (1e-13, "float32"), (1e-13, "float64")):
+        dt_ = getattr(torch, dtn)
         for shrink in (1.0, 1e-3):
-            pt = torch.tensor(np.asarray(w, dtype=np.float64) * shrink, dtype=torch.float32)
+            pt = torch.tensor(np.asarray(w, dtype=np.float64) * shrink, dtype=dt_)
             xs = []
             for c in (c0, c1, c2):
-                Jt = torch.tensor(np.array(c)[:, None] * J * g, dtype=torch.float32)
+                Jt = torch.tensor(np.array(c)[:, None] * J * g, dtype=dt_)
                 try:
                     xs.append(T.ConFIG(pref_vector=pt)(Jt).double().numpy())
                 except Exception as e:
@@ -306,13 +323,13 @@ def _config_float32(res, J, key, w):
             S = max(A.sigma_max(np.array(c)[:, None] * J * g) for c in (c0, c1, c2))
             err = float(np.abs(xs[0] - a * xs[1] - b * xs[2]).max())
             _, q = _units_facts(J, np.asarray(w, dtype=np.float64))
-            tol = 2e-4 * S / min(1.0, q)
-            okey = "exact:ConFIG:float32"
+            tol = (2e-4 if dtn == "float32" else 1e-9) * S / min(1.0, q)
+            okey = f"exact:ConFIG:{dtn}:far-scales"
             res["maxima"][okey] = max(res["maxima"].get(okey, 0.0), err / tol)
             res["counters"]["evaluations"] += 1
             if not (err <= tol):  # NaN-safe
-                res["viol"].append(dict(sig="nonlinear:ConFIG:float32", cls=f"nonlinear:ConFIG:float32:g={g:g}:shrink={shrink:g}",
-                                        msg=f"{key} J={J.tolist()} global scale {g:g} pref x{shrink:g} float32: A(c0)={xs[0].tolist()} "
+                res["viol"].append(dict(sig=f"nonlinear:ConFIG:{dtn}", cls=f"nonlinear:ConFIG:{dtn}:g={g:g}:shrink={shrink:g}",
+                                        msg=f"{key} J={J.tolist()} global scale {g:g} pref x{shrink:g} {dtn}: A(c0)={xs[0].tolist()} "
                                             f"a*A(c1)+b*A(c2)={(a * xs[1] + b * xs[2]).tolist()} err/tol={err / tol:.3g}"[:600]))
 
 
@@ -439,6 +456,9 @@ def _run_upgrad(case, res):
             res["counters"]["drop_not_full_row_rank"] += 1
             continue
         rn = Runner(J)
+        # the rungs that run with the default norm_eps = 1e-4 use the matrix scaled by 0.05: its smallest singular values then fall BELOW
+        # norm_eps while the largest stays above it (the cut-off must apply to the largest singular value only)
+        rn_small = Runner(J * 0.05)
         conflict = _conflict(J)
         for pk, p in enumerate(A.pref_vectors(m)):
             if 1 <= pk <= m and pk != 1:
@@ -451,6 +471,14 @@ def _run_upgrad(case, res):
                 if c not in W:
                     W[c] = _w0(rn.matrix(c), u)
                 return W[c]
+
+            LAM = {}
+
+            def lam(c):
+                if c not in LAM:
+                    sv = np.linalg.svd(rn.matrix(c), compute_uv=False)
+                    LAM[c] = float((sv[-1] / sv[0]) ** 2)
+                return LAM[c]
 
             for reg in REGS:
                 key = f"UPGrad[p{pk},reg={reg:g}]"
@@ -465,16 +493,30 @@ def _run_upgrad(case, res):
                         res["dropped"] += 1
                         res["counters"]["drop_reference_not_certified"] += 1
                         continue
-                    xs = [rn.run(key, build, [], c) for c in (c0, c1, c2)]
+                    small = ne == 1e-4 and min(rn_small.sigma(c) for c in (c0, c1, c2)) >= 2e-4
+                    r_ = rn_small if small else rn
+                    xs = [r_.run(key, build, [], c) for c in (c0, c1, c2)]
                     bad = [x for x in xs if isinstance(x, Exception)]
                     if bad:
                         res["viol"].append(dict(sig=f"exception:UPGrad:reg={reg:g}:{type(bad[0]).__name__}", cls=f"exception:UPGrad:{reg:g}",
                                                 msg=f"{key} J={J.tolist()} c1={c1} c2={c2}: {bad[0]!r}"[:400]))
                         continue
-                    Ss = [rn.sigma(c) for c in (c0, c1, c2)]
+                    Ss = [r_.sigma(c) for c in (c0, c1, c2)]
                     S = max(Ss)
                     defect = float(np.linalg.norm(xs[0] - a * xs[1] - b * xs[2]))
                     bound = math.sqrt(reg) * (Ss[0] * ws[0][0] + a * Ss[1] * ws[1][0] + b * Ss[2] * ws[2][0]) + 1e-9 * S
+                    # second proven bound, LINEAR in reg (this is the "vanishes as reg_eps -> 0" clause on ill-conditioned inputs): for the
+                    # minimisers v* (regularised) and v0 (not) over the same convex set, the two variational inequalities give
+                    # lambda_min |v*-v0|^2 <= (v*-v0)'G^(v*-v0) <= reg <v*, v0-v*> <= reg |v0| |v*-v0|, hence |J'(v*-v0)| <= s reg |v0| / lambda_min
+                    lams = [lam(c) for c in (c0, c1, c2)]
+                    lin = reg * (Ss[0] * ws[0][0] / lams[0] + a * Ss[1] * ws[1][0] / lams[1] + b * Ss[2] * ws[2][0] / lams[2])
+                    slack = 1e-9 * S + 1e-13 * (Ss[0] * ws[0][0] / lams[0] + a * Ss[1] * ws[1][0] / lams[1] + b * Ss[2] * ws[2][0] / lams[2])
+                    okl = f"upgrad-linear-bound:reg={reg:g}"
+                    res["maxima"][okl] = max(res["maxima"].get(okl, 0.0), defect / (lin + slack))
+                    if not (defect <= lin + slack):
+                        res["viol"].append(dict(sig=f"upgrad-defect-exceeds-linear-bound:reg={reg:g}", cls=f"upgrad-lin:{reg:g}",
+                                                msg=f"{key} J={J.tolist()} c1={c1} c2={c2} a={a} b={b}: defect={defect:.3g} reg*s*|v0|/lambda_min bound={lin + slack:.3g} "
+                                                    f"S={S:.3g} lambda_min={[float(f'{x:.3g}') for x in lams]}"[:600]))
                     r = defect / bound
                     kc = max(max(c1) / min(c1), max(c2) / min(c2))
                     okey = f"upgrad:reg={reg:g}"
@@ -493,7 +535,7 @@ def _run_upgrad(case, res):
                 x1 = rn.run(f"UPGrad[p{pk},reg={reg:g}]", build, [], trs[0][0])
                 if not isinstance(x1, Exception):
                     res["outcomes"].add(digest([pk, reg, np.round(x1, 6).tolist()]))
-        res["execs"] += rn.execs
+        res["execs"] += rn.execs + rn_small.execs
 
 
 # ----------------------------------------------------------------------------- entry point
